@@ -418,7 +418,12 @@ func (ri *ReservationInfo) UpdateReservation(r *schedulingv1alpha1.Reservation) 
 	ri.Pod = reservationutil.NewReservePod(r)
 	ri.AllocatablePorts = util.RequestedHostPorts(ri.Pod)
 	if ri.Allocated != nil {
-		ri.Allocated = quotav1.Mask(ri.Allocated, ri.ResourceNames)
+		// the reserved dimensions may have changed: re-derive the ledger from the assigned pods
+		var allocated corev1.ResourceList
+		for _, requirement := range ri.AssignedPods {
+			allocated = quotav1.Add(allocated, quotav1.Mask(requirement.Requests, ri.ResourceNames))
+		}
+		ri.Allocated = allocated
 	}
 	reserved := util.GetNodeReservationFromAnnotation(r.Annotations)
 	if len(reserved) > 0 {
